@@ -341,7 +341,7 @@ def _deliveries(st, pre):
                         for cm in ch["consumers"]:
                             if cm["tag"] == args[0]:
                                 q, noack = cm["queue"], cm["noack"]
-                if q is None and f[0] == "CONS" and (int(f[1]), int(f[2])) == (c, h) and f[4] == args[0]:
+                if q is None and f[0] == "CONS" and (int(f[1]), int(f[2])) == (c, h) and (f[4] == args[0] or (f[4] == "-" and args[0].startswith("amq.gen-"))):
                     q, noack = de(f[3]), f[5] == "1"
                 rec.update(queue=q, noack=noack)
             elif name == "basic.get-ok":
